@@ -9,7 +9,7 @@ import (
 
 // VerifC17Push: relay push. A group with n configured push targets goes through a symbolic history of
 // publisher arrival / departure, ticks, and attempt outcomes (the attempt of target j attached / ended).
-// Model per target: idle -> in flight (one goroutine) -> attached -> idle. An attempt is opened exactly
+// Model per target: idle -> in flight (one goroutine) -> attached -> (closing ->) idle. An attempt is opened exactly
 // when a publisher is accepted or a tick finds a publisher and the target idle; never two at once; a
 // failed target is retried on a later tick; when the publisher leaves every attached session is closed.
 func VerifC17Push() {
@@ -30,6 +30,7 @@ func VerifC17Push() {
 		idle = iota
 		inflight
 		attached
+		closing // the group closed the attached session (publisher left); its goroutine has not reported the end yet
 	)
 	state := make([]int, n)
 	sess := make([]*rtmp.PushSession, n)
@@ -95,6 +96,7 @@ func VerifC17Push() {
 				if state[j] == attached {
 					// closed by the group; its goroutine reports the end later (op 2)
 					vrt.Assert(sess[j].Dispose() == nil, "push session closed when the publisher leaves")
+					state[j] = closing
 				}
 			}
 		}
